@@ -151,6 +151,14 @@ func (client *ClientWorker) runSession(leftovers chan base.LogChunk) (chan base.
 	sess := newClientSession(client, conn)
 	client.activeSession.Store(sess)
 
+	// The stop signal may have been raised while the connection was being set up: the abort-on-stop callback in
+	// NewClientWorker has then run without seeing this session, which would be left to its send/ACK deadlines.
+	if client.inputClosed.Peek() {
+		sess.Abort(func() {
+			client.logger.Info("abort new connection due to earlier stop request")
+		})
+	}
+
 	defer func() {
 		sess.Abort(func() {
 			// as "abort" runs at most once, this should not be reached unless clientSession.collectLeftovers didn't work
